@@ -366,6 +366,88 @@ func runC20(ctx *Ctx) {
 		}
 	}
 	ctx.Cov.Component("catalog of a document vs catalog with one fresh declaration added (specification on the implementation)", ctx.Cov.Evaluations, len(ctx.Violations), "")
+	c20DotPaths(ctx, r)
+}
+
+// c20DotPaths: a fresh method whose path is textually unrelated to the existing ones but contains "." / ".." segments
+// (so that a path-cleaning function would map it onto an existing path or onto the prefix of one), with a different
+// parameter name, with or without a Path directive of its own: the document stays accepted, every old interaction is
+// unchanged, exactly one interaction is added.
+func c20DotPaths(ctx *Ctx, r *Rng) {
+	bases := []struct{ text, path, param string }{
+		{"GET /pets/{id}\n  200 any\n", "/pets", "id"},
+		{"GET /pets/{id}\n  Path\n  {\"id\": 1}\n  200 any\n", "/pets", "id"},
+		{"URL /shops/{shop}/items/{item}\n  Path\n  {\"shop\": 1, \"item\": 2}\n  GET\n    200 any\n", "/shops/{shop}/items", "item"},
+		{"GET /{a}\n  200 any\n", "", "a"},
+		{"GET /{a}\n  Path\n  {\"a\": 1}\n  200 any\nPOST /x/{b}\n  200 any\n", "", "a"},
+	}
+	cases, bad := 0, 0
+	for bi, b := range bases {
+		for k, mk := range []func(prefix, par string) string{
+			func(prefix, par string) string { return "/v2/.." + prefix + "/{" + par + "}" },
+			func(prefix, par string) string { return "/v2/." + prefix + "/{" + par + "}" },
+			func(prefix, par string) string { return "/a/b/../.." + prefix + "/{" + par + "}" },
+			func(prefix, par string) string { return prefix + "/./{" + par + "}" },
+			func(prefix, par string) string { return prefix + "/zz/../{" + par + "}" },
+			func(prefix, par string) string { return "/." + prefix + "/{" + par + "}/.." },
+		} {
+			for _, par := range []string{b.param, "other"} {
+				for _, withPath := range []bool{false, true} {
+					p := mk(b.path, par)
+					fresh := "DELETE " + p + "\n"
+					if withPath {
+						fresh += "  Path\n  {\"" + par + "\": 7}\n"
+					}
+					fresh += "  200 any\n"
+					for _, first := range []bool{false, true} {
+						old := "JSIGHT 0.3\n" + b.text
+						doc := old + fresh
+						if first {
+							doc = "JSIGHT 0.3\n" + fresh + b.text
+						}
+						b0 := RunProject(SingleFile([]byte(old)), false)
+						b1 := RunProject(SingleFile([]byte(doc)), false)
+						cases++
+						ctx.Cov.Count([]byte(doc), true)
+						ctx.Cov.Hit(fmt.Sprintf("fresh method with dot segments (shape %d)", k))
+						if !b0.Accepted() || b1.Panic != "" {
+							continue
+						}
+						in := projectInput(SingleFile([]byte(doc)))
+						in["op"] = "add"
+						in["original"] = hx([]byte(old))
+						if !b1.Accepted() {
+							bad++
+							ctx.Violate(Violation{Kind: "wrong-output", Site: "locality", What: fmt.Sprintf("adding the method %q to a document with %q makes it rejected: %s", "DELETE "+p, strings.SplitN(b.text, "\n", 2)[0], b1.Verdict()),
+								Input: in, Observed: b1.Verdict(), Expected: "accepted", Signature: "add-rejected:dot-path"})
+							continue
+						}
+						v0, _, e0 := ParseOJSON(b0.JSON)
+						v1, _, e1 := ParseOJSON(b1.JSON)
+						if e0 != nil || e1 != nil {
+							continue
+						}
+						i0, i1 := v0.Get("interactions"), v1.Get("interactions")
+						msg := ""
+						if len(i1.Keys()) != len(i0.Keys())+1 {
+							msg = fmt.Sprintf("%d interactions became %d", len(i0.Keys()), len(i1.Keys()))
+						}
+						for _, key := range i0.Keys() {
+							if i1.Get(key) == nil || i1.Get(key).Canon(false) != i0.Get(key).Canon(false) {
+								msg = "the interaction " + key + " changed: " + trunc(i0.Get(key).Canon(false), 300) + " became " + trunc(i1.Get(key).Canon(false), 300)
+							}
+						}
+						if msg != "" {
+							bad++
+							ctx.Violate(Violation{Kind: "wrong-output", Site: "locality", What: fmt.Sprintf("adding the method %q: %s", "DELETE "+p, msg), Input: in, Signature: "add-changed:dot-path"})
+						}
+					}
+				}
+			}
+		}
+		_ = bi
+	}
+	ctx.Cov.Component("a fresh method whose path has '.' / '..' segments added to documents with parameterised paths (specification on the implementation)", cases, bad, "")
 }
 
 // onlyAdded: new = old plus exactly the entries of the fresh block (and its automatic tag); no other entry changes.
